@@ -49,6 +49,17 @@ type Shape struct {
 	// ReplaceQuotes sets replace_double_quotes (csv, csv2): the reader stack gets a quote-replacing reader. Quoted
 	// fields then lose their quoting, so only properties that make no per-record assumption enable it.
 	ReplaceQuotes bool `json:"replace_quotes,omitempty"`
+	// FLRows is the number of rows of the multi-row fixedlength2 layout (variant 1): 0 means 2; FLBlank puts a
+	// blank line between the rows of a record (blank lines are skipped by the reader).
+	FLRows  int  `json:"fl_rows,omitempty"`
+	FLBlank bool `json:"fl_blank,omitempty"`
+}
+
+func (s Shape) flRows() int {
+	if s.FLRows >= 2 {
+		return s.FLRows
+	}
+	return 2
 }
 
 // Rec is one logical record.
@@ -110,6 +121,10 @@ func DrawShape(t *rapid.T, o ShapeOpts) Shape {
 		s.Widths = drawWidths(t, s.NCols, "w")
 	case "fixedlength2":
 		s.Widths = drawWidths(t, s.NCols, "w")
+		if s.Variant == 1 {
+			s.FLRows = rapid.SampledFrom([]int{2, 2, 3, 4}).Draw(t, "flrows")
+			s.FLBlank = rapid.IntRange(0, 2).Draw(t, "flblank") == 0
+		}
 		if s.Variant == 2 {
 			s.NSub = rapid.IntRange(1, 2).Draw(t, "nsub")
 			s.SubW = drawWidths(t, s.NSub, "sw")
@@ -412,6 +427,9 @@ func (s Shape) transformDecls() obj {
 			obj{"const": "JSON.stringify(JSON.parse(_node)).length + ':' + x"}, obj{"const": "x"}, obj{"xpath": "c0"}}}}
 		fields["njs2"] = obj{"custom_func": obj{"name": "javascript_with_context", "args": []interface{}{
 			obj{"const": "JSON.stringify(JSON.parse(_node)).length + ':' + x"}, obj{"const": "x"}, obj{"xpath": last}}}}
+		// declarations evaluated on the record's parent, a node that outlives the record and whose content
+		// (the current record as its last element child) changes from record to record
+		fields["anc"] = obj{"xpath": "..", "object": obj{"lastc0": obj{"xpath": "*[last()]/c0"}, "l": obj{"xpath": "*[last()]/" + last}}}
 		fields["pjs"] = obj{"xpath": "..", "custom_func": obj{"name": "javascript_with_context", "args": []interface{}{
 			obj{"const": "JSON.stringify(JSON.parse(_node)).length"}}}}
 		decls["tpl"] = obj{"object": obj{"first": obj{"xpath": "c0"}, "js": obj{"custom_func": obj{"name": "javascript", "args": []interface{}{
@@ -530,14 +548,14 @@ func (s Shape) fileDecl() obj {
 			for i := 0; i < s.NCols; i++ {
 				c := obj{"name": colName(i), "start_pos": pos, "length": s.Widths[i]}
 				if s.Variant == 1 {
-					c["line_index"] = 1 + i%2
+					c["line_index"] = 1 + i%s.flRows()
 				}
 				pos += s.Widths[i]
 				cols = append(cols, c)
 			}
 			env := obj{"name": "REC", "columns": cols, "is_target": true}
 			if s.Variant == 1 {
-				env["rows"] = 2
+				env["rows"] = s.flRows()
 			}
 			return obj{"envelopes": []interface{}{env}}
 		default:
@@ -791,7 +809,15 @@ func (s Shape) RenderParts(recs []Rec) (pro string, parts []string, epi string) 
 				parts = append(parts, string(la)+eol+string(lb)+eol)
 			case s.Variant == 1:
 				l := line("", r.Vals, s.Widths)
-				parts = append(parts, l+"."+eol+l+"."+eol)
+				p := ""
+				for k := 0; k < s.flRows(); k++ {
+					if k > 0 && s.FLBlank {
+						p += eol
+					}
+					// every row carries all columns, marked with its row number so that a mixed-up row shows
+					p += l + fmt.Sprint(k+1) + eol
+				}
+				parts = append(parts, p)
 			case s.Format == "fixed-length":
 				parts = append(parts, line("R", r.Vals, s.Widths)+eol+"Xmid"+eol+"E"+eol)
 			default:
